@@ -109,6 +109,10 @@ def gen_store(rng: random.Random, n_traces: int, names: list[str], types: list[s
                 spans = [s for s in spans if s is not root]
             elif r < 0.4:
                 kind = "mixed-names"
+            # inconsistent workflow names combine with every structural kind
+            if kind == "mixed-names" or (kind != "complete" and rng.random() < 0.4):
+                if kind != "mixed-names":
+                    kind += "+mixed-names"
                 others = [x for x in names if x != name] or [name + "_alt"]
                 for s in spans:
                     if s["parent_event_id"] is not None and rng.random() < 0.5:
